@@ -31,6 +31,8 @@ func TestMain(m *testing.M) {
 
 var prefixes = []string{nodeenrollment.AuthenticateNodeNextProtoV1Prefix, nodeenrollment.FetchNodeCredsNextProtoV1Prefix, nodeenrollment.CertificatePreferenceV1Prefix}
 
+var envCounter int
+
 type env struct {
 	w    *vkit.World
 	rig  *vkit.Rig
@@ -42,7 +44,14 @@ func newEnv(t vkit.TB) *env {
 	w := vkit.NewWorld(vkit.WorldConfig{})
 	// a server that supports the wrapper-based registration flow
 	w.Opts = append(w.Opts, nodeenrollment.WithRegistrationWrapper(vkit.NewAead("registration")))
-	e := &env{w: w, rig: vkit.NewRig(w, vkit.RigConfig{}), node: vkit.NewActor("honest")}
+	// half of the listeners have a base TLS configuration, so that handshakes without a
+	// usable library request complete as unauthenticated connections instead of failing
+	var base *tls.Config
+	if envCounter++; envCounter%2 == 0 {
+		r := vkit.MintRoot(time.Now().Add(-time.Hour), time.Now().Add(time.Hour))
+		base = &tls.Config{Certificates: []tls.Certificate{{Certificate: [][]byte{r.Cert.Raw}, PrivateKey: r.Priv}}}
+	}
+	e := &env{w: w, rig: vkit.NewRig(w, vkit.RigConfig{BaseTLS: base}), node: vkit.NewActor("honest")}
 	if err := w.Enroll(e.node); err != nil {
 		t.Fatalf("enroll: %v", err)
 	}
@@ -118,7 +127,7 @@ func rnd(n int) []byte {
 // genEntry draws one ALPN entry (1..255 bytes, what a TLS client can send).
 func genEntry(t *rapid.T, e *env) string {
 	p := rapid.SampledFrom(prefixes).Draw(t, "prefix")
-	kind := rapid.SampledFrom([]string{"bare", "short", "header-only", "non-base64", "b64-random", "valid-chunk", "big-index", "no-hyphen", "foreign", "prefix-cut", "max-len"}).Draw(t, "entryKind")
+	kind := rapid.SampledFrom([]string{"bare", "short", "header-only", "non-base64", "b64-random", "valid-chunk", "big-index", "no-hyphen", "foreign", "prefix-cut", "max-len", "embedded-prefix"}).Draw(t, "entryKind")
 	var s string
 	switch kind {
 	case "bare":
@@ -154,6 +163,9 @@ func genEntry(t *rapid.T, e *env) string {
 		s = p + rapid.StringMatching(`[0-9]{2,5}`).Draw(t, "digits") + b64(rnd(rapid.IntRange(0, 30).Draw(t, "n")))
 	case "foreign":
 		s = rapid.SampledFrom([]string{"h2", "http/1.1", "__AUTH__", "__UNAUTH__", "x"}).Draw(t, "foreign")
+	case "embedded-prefix":
+		// a library prefix somewhere inside a foreign name
+		s = rapid.StringMatching(`[a-z]{1,6}[-/]`).Draw(t, "lead") + p + rapid.StringMatching(`[a-z0-9-]{0,20}`).Draw(t, "tail")
 	case "prefix-cut":
 		s = p[:rapid.IntRange(1, len(p)).Draw(t, "cut")]
 	default:
